@@ -158,12 +158,14 @@ def run_trainer(sg, E, NB, NV, NT, evaluator_mode, callbacks, seed, do_fit=True,
 
     def loader(n):
         out = []
-        for _ in range(n):
-            x = sg.Tensor(rng.randn(batch, 3).astype(np.float32))
-            y = sg.Tensor(rng.randint(0, K, size=(batch,)).astype(np.int64))
+        for j in range(n):
+            # loader_kind "list_uneven": batches of different sizes (a short last batch, user-supplied loaders)
+            bsz = batch if loader_kind != "list_uneven" else (batch + 3 if j == 0 else 2 if j == n - 1 else batch)
+            x = sg.Tensor(rng.randn(bsz, 3).astype(np.float32))
+            y = sg.Tensor(rng.randint(0, K, size=(bsz,)).astype(np.int64))
             out.append((x, y))
         return out
-    if loader_kind == "list":
+    if loader_kind in ("list", "list_uneven"):
         train_loader, val_loader, test_loader = loader(NB), (loader(NV) if NV > 0 else None), loader(NT)
     else:
         from synapgrad.nn.utils.data import DataLoader, DataLoaderCallback
